@@ -87,6 +87,7 @@ package smtp
 // C03 / C04  SMTP dialogue typestate (ghost state on c.Text, see /verif/engine/stdlib/proto.spec)
 //
 //@ func smtp.NewClient (conn, host) (c, err)
+//@   ensures[C13:private] err == nil ==> fresh(c)
 //@   ensures[C03,C04:fresh] err == nil ==> c != nil && quiet0(c.Text) && idle0(c.Text) && !c.didHello
 //@ func smtp.Client.Close
 //@   requires[C03,C04:wf] c != nil && c.Text != nil
@@ -131,7 +132,7 @@ package smtp
 //@ func smtp.Client.Data () (w, err)
 //@   requires[C03,C04:in-step] c != nil && quiet(c.Text) && (live(c.Text) ==> c.Text.txn == 2 && c.Text.acc >= 1 && c.Text.rej == 0)
 //@   ensures[C03,C04:step] c.Text != nil && c.Text.greeted && (old(c.Text.ioerr) ==> c.Text.ioerr) && (!c.Text.ioerr ==> c.Text.eodacks == old(c.Text.eodacks) && c.Text.pending == 0)
-//@   ensures[C03,C04,C17:result] err == nil ==> w != nil && istype(w, "*smtp.dataCloser") && as(w, "*smtp.dataCloser").c == c
+//@   ensures[C03,C04,C13,C17:result] err == nil ==> w != nil && istype(w, "*smtp.dataCloser") && as(w, "*smtp.dataCloser").c == c
 //@   ensures[C03,C04:open] err == nil ==> (!c.Text.ioerr ==> c.Text.indata && c.Text.txn == 3)
 //@   ensures[C03,C04:refused] err != nil ==> quiet(c.Text) && (live(c.Text) ==> c.Text.txn == 2)
 //@ func smtp.dataCloser.Close
@@ -169,3 +170,105 @@ package smtp
 //@   ensures[C16:flags] c.authIsActive == old(c.authIsActive) && c.logAuthData == old(c.logAuthData)
 //@ func smtp.Client.Quit
 //@   requires[C16:wf] c != nil
+
+// ---------------------------------------------------------------------------
+// C13  Lock discipline of smtp.Client (sequential typestate; schedules are not decided)
+//
+// Every use of c.Text / c.conn happens with c.mutex write-held, one command and its
+// reply form one critical section, and every function returns with the lock released.
+//@ func smtp.Client.cmd
+//@   requires[C13:free] c != nil && !mw(c)
+//@   restores[C13:balanced] wheld, rheld
+//@ at smtp.Client.cmd textproto.Conn.Cmd#1 before assert[C13:locked-write] mw(c)
+//@ at smtp.Client.cmd textproto.Reader.ReadResponse#1 before assert[C13:locked-read] mw(c)
+//@ at smtp.Client.cmd textproto.Pipeline.EndResponse#1 before assert[C13:locked-end] mw(c)
+//@ func smtp.Client.Close
+//@   requires[C13:free] c != nil && !mw(c)
+//@   restores[C13:balanced] wheld, rheld
+//@ at smtp.Client.Close textproto.Conn.Close#1 before assert[C13:locked] mw(c)
+//@ func smtp.Client.Quit
+//@   requires[C13:free] c != nil && !mw(c)
+//@   restores[C13:balanced] wheld, rheld
+//@ at smtp.Client.Quit textproto.Conn.Close#1 before assert[C13:locked] mw(c)
+//@ func smtp.Client.StartTLS
+//@   requires[C13:free] c != nil && !mw(c)
+//@   restores[C13:balanced] wheld, rheld
+//@ at smtp.Client.StartTLS tls.Client#1 before assert[C13:locked] mw(c)
+//@ at smtp.Client.StartTLS textproto.NewConn#1 before assert[C13:locked] mw(c)
+//@ func smtp.Client.Data
+//@   requires[C13:free] c != nil && !mw(c)
+//@   restores[C13:balanced] wheld, rheld
+//@ at smtp.Client.Data textproto.Writer.DotWriter#1 before assert[C13:locked] mw(c)
+//@ func smtp.dataCloser.Write
+//@   requires[C13:free] d != nil && d.c != nil && !mw(d.c)
+//@   restores[C13:balanced] wheld, rheld
+//@ at smtp.dataCloser.Write io.Writer.Write#1 before assert[C13:locked] mw(d.c)
+//@ func smtp.dataCloser.Close
+//@   requires[C13:free] d != nil && d.c != nil && !mw(d.c)
+//@   restores[C13:balanced] wheld, rheld
+//@ at smtp.dataCloser.Close io.Closer.Close#1 before assert[C13:locked] mw(d.c)
+//@ at smtp.dataCloser.Close textproto.Reader.ReadResponse#1 before assert[C13:locked] mw(d.c)
+//@ func smtp.Client.UpdateDeadline
+//@   requires[C13:free] c != nil && !mw(c)
+//@   restores[C13:balanced] wheld, rheld
+//@ at smtp.Client.UpdateDeadline net.Conn.SetDeadline#1 before assert[C13:locked] mw(c)
+//@ func smtp.Client.hello
+//@   requires[C13:free] c != nil && !mw(c)
+//@   restores[C13:balanced] wheld, rheld
+//@ func smtp.Client.ehlo
+//@   requires[C13:free] c != nil && !mw(c)
+//@   restores[C13:balanced] wheld, rheld
+//@ func smtp.Client.helo
+//@   requires[C13:free] c != nil && !mw(c)
+//@   restores[C13:balanced] wheld, rheld
+//@ func smtp.Client.Hello
+//@   requires[C13:free] c != nil && !mw(c)
+//@   restores[C13:balanced] wheld, rheld
+//@ func smtp.Client.Mail
+//@   requires[C13:free] c != nil && !mw(c)
+//@   restores[C13:balanced] wheld, rheld
+//@ func smtp.Client.Rcpt
+//@   requires[C13:free] c != nil && !mw(c)
+//@   restores[C13:balanced] wheld, rheld
+//@ func smtp.Client.Reset
+//@   requires[C13:free] c != nil && !mw(c)
+//@   restores[C13:balanced] wheld, rheld
+//@ func smtp.Client.Noop
+//@   requires[C13:free] c != nil && !mw(c)
+//@   restores[C13:balanced] wheld, rheld
+//@ func smtp.Client.Extension
+//@   requires[C13:free] c != nil && !mw(c)
+//@   restores[C13:balanced] wheld, rheld
+//@ func smtp.Client.Auth
+//@   requires[C13:free] c != nil && !mw(c)
+//@   restores[C13:balanced] wheld, rheld
+//@   loop 1 invariant[C13:free] !mw(c)
+//@ func smtp.Client.Auth$1
+//@   requires[C13:free] !mw(c)
+//@   restores[C13:balanced] wheld, rheld
+//@ func smtp.Client.HasConnection
+//@   requires[C13:free] c != nil && !mw(c)
+//@   restores[C13:balanced] wheld, rheld
+//@ func smtp.Client.SetDSNMailReturnOption
+//@   requires[C13:free] c != nil && !mw(c)
+//@   restores[C13:balanced] wheld, rheld
+//@ func smtp.Client.SetDSNRcptNotifyOption
+//@   requires[C13:free] c != nil && !mw(c)
+//@   restores[C13:balanced] wheld, rheld
+//@ func smtp.NewClient (conn, host) (c, err)
+//@   ensures[C13:free] err == nil ==> !mw(c)
+//@ func smtp.Client.SetLogger
+//@   requires[C13:free] c != nil && !mw(c)
+//@   restores[C13:balanced] wheld, rheld
+//@ func smtp.Client.SetLogAuthData
+//@   requires[C13:free] c != nil && !mw(c)
+//@   restores[C13:balanced] wheld, rheld
+//@ func smtp.Client.GetTLSConnectionState
+//@   requires[C13:free] c != nil && !mw(c)
+//@   restores[C13:balanced] wheld, rheld
+//@ func smtp.Client.TLSConnectionState
+//@   requires[C13:free] c != nil && !mw(c)
+//@   restores[C13:balanced] wheld, rheld
+//@ func smtp.Client.Verify
+//@   requires[C13:free] c != nil && !mw(c)
+//@   restores[C13:balanced] wheld, rheld
